@@ -1,4 +1,289 @@
-import DuneVerif.Model.C15
+/-
+C15 — Allocators hand out aligned, disjoint, usable blocks for any request history: the property theorems.
+
+All theorems are about the executable model `DuneVerif/Model/C15.lean` (the definitions the driver runs against the real
+allocators) and about the formulas regenerated from the headers in `DuneVerif/Gen/C15.lean` (Pool slot geometry,
+request validation of Malloc/AlignedAllocator, page arithmetic of the DebugAllocator).  They hold for every element size
+`sz = sizeof(T)`, every alignment `al = alignof(T) > 0` (powers of two are a special case), every pool size `s`, every
+request count `n`, every page size and every (valid) allocate/deallocate history; the base addresses the operating
+system / `operator new` / `mmap` return are universally quantified.  Sizes are natural numbers: the `int`/`size_t`
+range of the C++ constants is an assumption of the reading (`s < 2^31`), except where `wrap` models `size_t` overflow
+explicitly.  Lemmas live in `DuneVerif/Proofs/C15*.lean`; every `example` shows that the hypotheses of the theorem above
+it are satisfied by a concrete non-trivial input.
+-/
+import DuneVerif.Proofs.C15Pool
+import DuneVerif.Proofs.C15Raw
+
 namespace DV.C15
-theorem placeholder : True := trivial
+open DV.C15.Gen
+
+/-! ## Pool<T,s>: slot geometry (formulas generated from poolallocator.hh) -/
+
+/-- every static_assert of `Pool::Pool()` and more, for all sizes, alignments and pool sizes: a chunk holds at least
+    one slot, the slots fit into the chunk, a slot can hold a `T` and the free-list pointer, slot size and chunk size
+    are multiples of the slot alignment, which is a multiple of `alignof(T)` and of the pointer alignment -/
+theorem geometry_sound (sz al s : Nat) (hal : 0 < al) :
+    elements sz al s ≥ 1 ∧
+    elements sz al s * alignedSize sz al s ≤ chunkSize sz al s ∧
+    alignedSize sz al s ≥ sz ∧ alignedSize sz al s ≥ refSize ∧
+    alignment sz al s ∣ alignedSize sz al s ∧ alignment sz al s ∣ chunkSize sz al s ∧
+    al ∣ alignment sz al s ∧ refAlign ∣ alignment sz al s := by
+  have hA := alignment_pos sz s hal
+  refine ⟨?_, ?_, ?_, ?_, roundUp_dvd _ _, roundUp_dvd _ _, Nat.dvd_lcm_left _ _, Nat.dvd_lcm_right _ _⟩
+  · rw [elements_eq]; exact Nat.div_pos (alignedSize_le_chunkSize sz s hal) (alignedSize_pos sz s hal)
+  · rw [elements_eq]; exact Nat.div_mul_le_self _ _
+  · exact Nat.le_trans (le_unionSize sz al s).1 (by rw [alignedSize_eq]; exact le_roundUp _ hA)
+  · exact Nat.le_trans (le_unionSize sz al s).2 (by rw [alignedSize_eq]; exact le_roundUp _ hA)
+
+-- sizeof 12, alignof 4, pool size 100: slots of 16 bytes aligned to 8, chunk of 104 bytes, 6 slots
+example : unionSize 12 4 100 = 12 ∧ size 12 4 100 = 100 ∧ alignment 12 4 100 = 8 ∧ alignedSize 12 4 100 = 16 ∧
+    chunkSize 12 4 100 = 104 ∧ elements 12 4 100 = 6 := by decide
+-- a pool too small for one object still holds one: sizeof 24, alignof 16, pool size 1
+example : alignedSize 24 16 1 = 32 ∧ chunkSize 24 16 1 = 32 ∧ elements 24 16 1 = 1 := by decide
+
+/-- the slot size is the least multiple of the alignment that holds the object and the pointer: no space is wasted -/
+theorem alignedSize_tight (sz al s : Nat) (hal : 0 < al) :
+    alignedSize sz al s < max sz refSize + alignment sz al s := by
+  rw [alignedSize_eq]
+  have := roundUp_lt (unionSize sz al s) (alignment_pos sz s hal)
+  have hu : unionSize sz al s = max sz refSize := by unfold unionSize; split <;> omega
+  omega
+
+/-- for power-of-two alignments the slot alignment is the larger of `alignof(T)` and the pointer alignment -/
+theorem alignment_pow2_max (sz k s : Nat) : alignment sz (2 ^ k) s = max (2 ^ k) refAlign := alignment_pow2 sz k s
+
+example : alignment 3 (2 ^ 0) 7 = 8 ∧ alignment 128 (2 ^ 6) 7 = 64 := by decide
+
+/-- the geometry of every `Pool<T,s>` satisfies what the state machine needs -/
+theorem geoOK_generated (sz al s : Nat) (hal : 0 < al) : GeoOK (geoOf sz al s) :=
+  ⟨alignedSize_pos sz s hal, (geometry_sound sz al s hal).1, (geometry_sound sz al s hal).2.1⟩
+
+/-- slots are disjoint, aligned and inside their chunk — for every assignment of base addresses to chunks that
+    `operator new` may produce (bases aligned to `A`, chunk byte ranges disjoint) -/
+theorem slots_disjoint_aligned (g : Geo) (A : Nat) (base : Nat → Nat)
+    (hA : A ∣ g.alignedSize) (hfit : g.elements * g.alignedSize ≤ g.chunkSize)
+    (hbase : ∀ c, A ∣ base c)
+    (hsep : ∀ c c', c ≠ c' → base c + g.chunkSize ≤ base c' ∨ base c' + g.chunkSize ≤ base c)
+    {b b' : Block} (hb : b.2 < g.elements) (hb' : b'.2 < g.elements) (hne : b ≠ b') :
+    A ∣ addr g base b ∧ base b.1 ≤ addr g base b ∧ addr g base b + g.alignedSize ≤ base b.1 + g.chunkSize ∧
+    (addr g base b + g.alignedSize ≤ addr g base b' ∨ addr g base b' + g.alignedSize ≤ addr g base b) := by
+  have h1 := slot_inside hfit hb
+  have h2 := slot_inside hfit hb'
+  refine ⟨Nat.dvd_add (hbase _) (Nat.dvd_trans hA (Nat.dvd_mul_left _ _)), Nat.le_add_right _ _, by unfold addr; omega, ?_⟩
+  unfold addr
+  by_cases hc : b.1 = b'.1
+  · have hi : b.2 ≠ b'.2 := fun h => hne (Prod.ext hc h)
+    rw [hc]
+    rcases Nat.lt_or_gt_of_ne hi with h | h
+    · have := slots_apart (a := g.alignedSize) h; omega
+    · have := slots_apart (a := g.alignedSize) h; omega
+  · rcases hsep _ _ hc with h | h <;> omega
+
+/-! ## Pool<T,s>: all histories -/
+
+/-- the invariant `free list ⊎ live set = all slots of all chunks, each exactly once` holds after every valid history
+    (only live blocks are given back), starting from the empty pool -/
+theorem pool_invariant {g : Geo} (hg : GeoOK g) (ops : List Op) (hv : Valid g Pool.empty ops) :
+    let p := (run g Pool.empty ops).1
+    (p.free ++ p.live).Nodup ∧
+    (∀ b, b ∈ p.free ++ p.live ↔ (b.1 < p.chunks.length ∧ b.2 < g.elements)) ∧
+    p.free.length + p.live.length = p.chunks.length * g.elements := by
+  have hi := inv_run hg ops _ (inv_empty _) hv
+  exact ⟨hi.nodup, hi.mem, hi.count⟩
+
+/-- in every reachable state `allocate` returns a block that is not live (never a block somebody still owns), that is
+    a slot of one of the pool's chunks, and that is live and off the free list afterwards -/
+theorem allocate_fresh {g : Geo} (hg : GeoOK g) (ops : List Op) (hv : Valid g Pool.empty ops) :
+    let p := (run g Pool.empty ops).1
+    let r := allocate g.elements p
+    r.1 ∉ p.live ∧ r.1.1 < r.2.chunks.length ∧ r.1.2 < g.elements ∧ r.1 ∈ r.2.live ∧ r.1 ∉ r.2.free :=
+  allocate_fresh' hg.el_pos (inv_run hg ops _ (inv_empty _) hv)
+
+/-- reuse only after release: if two allocations of a valid history return the same block, the block was given back
+    in between -/
+theorem reuse_only_after_free {g : Geo} (hg : GeoOK g) (ops : List Op) (hv : Valid g Pool.empty ops)
+    (i j : Nat) (b : Block) (hij : i < j)
+    (hi : (run g Pool.empty ops).2[i]? = some (Ev.ret b)) (hj : (run g Pool.empty ops).2[j]? = some (Ev.ret b)) :
+    ∃ k, i < k ∧ k < j ∧ (run g Pool.empty ops).2[k]? = some (Ev.freed b) :=
+  reuse_after_free hg ops _ (inv_empty _) hv i j hij hi hj
+
+/-- giving back a live block is never refused -/
+theorem valid_free_accepted {g : Geo} (hg : GeoOK g) (ops : List Op) (hv : Valid g Pool.empty ops) :
+    Ev.refused ∉ (run g Pool.empty ops).2 :=
+  no_refusal hg ops _ (inv_empty _) hv
+
+/-- destroying the pool deletes every chunk it ever obtained exactly once, whatever is still live; and a chunk is
+    obtained only when no free slot exists -/
+theorem destroy_releases_all {g : Geo} (hg : GeoOK g) (ops : List Op) (hv : Valid g Pool.empty ops) :
+    (destroy (run g Pool.empty ops).1).Perm (List.range (run g Pool.empty ops).1.chunks.length) ∧
+    ∀ p, (allocate g.elements p).2.chunks.length = p.chunks.length + (if p.free = [] then 1 else 0) :=
+  ⟨destroy_perm (inv_run hg ops _ (inv_empty _) hv), allocate_chunks _⟩
+
+-- a history over 3-slot chunks that fills a chunk, frees the middle block, reuses it, and grows a second chunk
+example : Valid ⟨16, 48, 3⟩ Pool.empty [.alloc, .alloc, .alloc, .free (0, 1), .alloc, .alloc] ∧
+    (run ⟨16, 48, 3⟩ Pool.empty [.alloc, .alloc, .alloc, .free (0, 1), .alloc, .alloc]).2 =
+      [.ret (0, 0), .ret (0, 1), .ret (0, 2), .freed (0, 1), .ret (0, 1), .ret (1, 0)] ∧
+    destroy (run ⟨16, 48, 3⟩ Pool.empty [.alloc, .alloc, .alloc, .free (0, 1), .alloc, .alloc]).1 = [1, 0] ∧
+    GeoOK ⟨16, 48, 3⟩ := by
+  refine ⟨by decide, by decide, by decide, ⟨by decide, by decide, by decide⟩⟩
+
+/-- end to end for the generated geometry of `Pool<T,s>`: after every valid history, for every placement of the chunks
+    that `operator new` may choose, every live block is aligned for `T`, lies inside its chunk with room for a `T`,
+    and is disjoint from every other live block -/
+theorem pool_live_blocks_disjoint_aligned (sz al s : Nat) (hal : 0 < al) (ops : List Op)
+    (hv : Valid (geoOf sz al s) Pool.empty ops) (base : Nat → Nat)
+    (hbase : ∀ c, alignment sz al s ∣ base c)
+    (hsep : ∀ c c', c ≠ c' → base c + (geoOf sz al s).chunkSize ≤ base c' ∨ base c' + (geoOf sz al s).chunkSize ≤ base c) :
+    ∀ b ∈ (run (geoOf sz al s) Pool.empty ops).1.live,
+      (al ∣ addr (geoOf sz al s) base b ∧ base b.1 ≤ addr (geoOf sz al s) base b ∧
+        addr (geoOf sz al s) base b + sz ≤ base b.1 + (geoOf sz al s).chunkSize) ∧
+      ∀ b' ∈ (run (geoOf sz al s) Pool.empty ops).1.live, b ≠ b' →
+        addr (geoOf sz al s) base b + sz ≤ addr (geoOf sz al s) base b' ∨
+        addr (geoOf sz al s) base b' + sz ≤ addr (geoOf sz al s) base b := by
+  have hgs := geometry_sound sz al s hal
+  have hg := geoOK_generated sz al s hal
+  have hi := inv_run hg ops _ (inv_empty _) hv
+  have hsz : sz ≤ (geoOf sz al s).alignedSize := hgs.2.2.1
+  have hdA : alignment sz al s ∣ (geoOf sz al s).alignedSize := hgs.2.2.2.2.1
+  have hal' : al ∣ alignment sz al s := hgs.2.2.2.2.2.2.1
+  generalize geoOf sz al s = g at hv hsep hg hi hsz hdA ⊢
+  intro b hb
+  have hslot : ∀ x ∈ (run g Pool.empty ops).1.live, x.2 < g.elements :=
+    fun x hx => ((hi.mem x).1 (List.mem_append.2 (Or.inr hx))).2
+  refine ⟨?_, fun b' hb' hne => ?_⟩
+  · have h1 := slot_inside hg.fit (hslot b hb)
+    refine ⟨Nat.dvd_trans hal' (Nat.dvd_add (hbase _) (Nat.dvd_trans hdA (Nat.dvd_mul_left _ _))),
+      Nat.le_add_right _ _, ?_⟩
+    unfold addr
+    omega
+  · have := (slots_disjoint_aligned g (alignment sz al s) base hdA hg.fit hbase hsep
+      (hslot b hb) (hslot b' hb') hne).2.2.2
+    omega
+
+-- the element type of the first example (sizeof 12, alignof 4, pool size 100): two chunks 104 bytes apart
+example : Valid (geoOf 12 4 100) Pool.empty [.alloc, .alloc, .free (0, 0), .alloc] ∧
+    (run (geoOf 12 4 100) Pool.empty [.alloc, .alloc, .free (0, 0), .alloc]).1.live = [(0, 1), (0, 0)] := by
+  decide
+
+/-! ## PoolAllocator<T,s> -/
+
+/-- `allocate(n)` with `n ≠ 1` is refused with bad_alloc (a pool block holds one object) and leaves the pool unchanged
+    (the model returns no new state); `allocate(1)` is the pool's allocate -/
+theorem n_ne_one_refused (E n : Nat) (p : Pool) :
+    (n ≠ 1 → paAllocate E n p = .error .alloc) ∧ (n = 1 → paAllocate E n p = .ok (allocate E p)) := by
+  constructor
+  · intro h; simp [paAllocate, paAccepts, h]
+  · intro h; simp [paAllocate, paAccepts, h]
+
+example : paAllocate 3 0 Pool.empty = .error .alloc ∧ paAllocate 3 2 Pool.empty = .error .alloc ∧
+    paAllocate 3 (2 ^ 64 - 1) Pool.empty = .error .alloc ∧
+    paAllocate 3 1 Pool.empty = .ok ((0, 0), ⟨[0], [(0, 1), (0, 2)], [(0, 0)]⟩) := ⟨rfl, rfl, rfl, rfl⟩
+
+/-- the pool of `PoolAllocator<T,s>` is `Pool<T, s*sizeof(T)>` -/
+theorem pa_pool_size (sz s : Nat) : paPoolSize sz s = s * sz := rfl
+
+/-! ## MallocAllocator<T>, AlignedAllocator<T,A> -/
+
+/-- a request whose byte size does not fit into `size_t` is refused with bad_alloc whatever the C library would do
+    (the product `n * sizeof(T)` is never formed) -/
+theorem malloc_overflow_refused (sz n : Nat) (h : sizeMax < n * sz) (os : Nat → Bool) :
+    mallocAllocate sz n os = .error .alloc := malloc_refused' h os
+
+/-- a served request got exactly `n * sizeof(T)` bytes (no wrap-around) from a successful `malloc` -/
+theorem malloc_served_exact (sz n bytes : Nat) (hsz : 0 < sz) (os : Nat → Bool)
+    (h : mallocAllocate sz n os = .ok bytes) : bytes = n * sz ∧ os bytes = true ∧ n * sz ≤ sizeMax :=
+  malloc_served' hsz h
+
+-- 2^61+1 doubles wrap around to 8 bytes: refused; 3 doubles: 24 bytes
+example : sizeMax < (2 ^ 61 + 1) * 8 ∧ mallocAllocate 8 (2 ^ 61 + 1) (fun _ => true) = .error .alloc ∧
+    mallocAllocate 8 3 (fun _ => true) = .ok 24 ∧ mallocAllocate 8 3 (fun _ => false) = .error .alloc :=
+  ⟨by decide, rfl, rfl, rfl⟩
+
+theorem aligned_overflow_refused (sz al A n : Nat) (h : sizeMax < n * sz) (os : Nat → Bool) :
+    alignedAllocate sz al A n os = .error .alloc := aligned_refused' al A h os
+
+/-- a served request got exactly `n * sizeof(T)` bytes from `aligned_alloc` called with the promised alignment:
+    `alignof(T)` by default (`A = 0` encodes `Alignment = -1`), else `A`; a block aligned to it is aligned for `T`
+    whenever `alignof(T)` divides `A` -/
+theorem aligned_served_exact (sz al A n a bytes : Nat) (hsz : 0 < sz) (os : Nat → Bool)
+    (h : alignedAllocate sz al A n os = .ok (a, bytes)) :
+    a = (if A = 0 then al else A) ∧ bytes = n * sz ∧ os bytes = true ∧ n * sz ≤ sizeMax ∧
+    ∀ p, a ∣ p → (A = 0 ∨ al ∣ A) → al ∣ p := by
+  obtain ⟨h1, h2, h3, h4⟩ := aligned_served' hsz h
+  refine ⟨h1, h2, h3, h4, fun p hp hA => ?_⟩
+  rw [h1] at hp
+  by_cases h0 : A = 0
+  · rw [if_pos h0] at hp; exact hp
+  · rw [if_neg h0] at hp
+    rcases hA with hA | hA
+    · exact absurd hA h0
+    · exact Nat.dvd_trans hA hp
+
+example : alignedAllocate 12 4 64 5 (fun _ => true) = .ok (64, 60) ∧
+    alignedAllocate 12 4 0 5 (fun _ => true) = .ok (4, 60) ∧
+    alignedAllocate 12 4 64 (2 ^ 63) (fun _ => true) = .error .alloc := ⟨rfl, rfl, rfl⟩
+
+/-! ## DebugAllocator (AllocationManager): page arithmetic and bookkeeping -/
+
+/-- requests whose byte size plus the two extra pages is not representable are refused with bad_alloc -/
+theorem debug_overflow_refused (sz page n : Nat) (hp2 : 2 * page ≤ sizeMax) (h : sizeMax < n * sz + 2 * page)
+    (mmap : Nat → Option Nat) (l : List AInfo) : dbgAllocate sz page n mmap l = .error .alloc :=
+  dbg_refused' hp2 h mmap l
+
+/-- an accepted request: the block has exactly `n*sizeof(T)` bytes, starts inside the first page of its mapping, ends
+    exactly where the inaccessible guard page begins, the guard page is the last page of the mapping, and nothing
+    wrapped around; the block is recorded at the end of the allocation list -/
+theorem debug_block_ends_at_guard (sz page n : Nat) (hsz : 0 < sz) (hp : 0 < page) (hp2 : 2 * page ≤ sizeMax)
+    (mmap : Nat → Option Nat) (l l' : List AInfo) (ai : AInfo)
+    (h : dbgAllocate sz page n mmap l = .ok (ai, l')) :
+    ai.cap = n * sz ∧ ai.pagePtr ≤ ai.ptr ∧ ai.ptr - ai.pagePtr < page ∧
+    ai.ptr + ai.cap = ai.pagePtr + dbgGuardOff ai.cap page ∧
+    dbgGuardOff ai.cap page + page = dbgMapLen ai.cap page ∧
+    mmap (dbgMapLen ai.cap page) = some ai.pagePtr ∧ dbgMapLen ai.cap page = ai.pages * page ∧
+    ai.pages * page ≤ sizeMax ∧ l' = l ++ [ai] := by
+  obtain ⟨hf, hl, hm, _⟩ := dbg_facts hsz hp hp2 h
+  exact ⟨hf.cap_eq, hf.ptr_ge, hf.ptr_off_lt, hf.ends_at_guard, by rw [hf.maplen]; exact hf.guard_last, hm, hf.maplen,
+    hf.no_wrap, hl⟩
+
+-- 512 doubles = exactly one page (the case the unrepaired code could not deallocate): mapping of 2 pages at 0x10000,
+-- block = first page, guard = second page;  100 doubles: block ends at the guard, starts 800 bytes before it
+example : dbgAllocate 8 4096 512 (fun len => if len = 8192 then some 0x10000 else none) [] =
+      .ok (⟨0x10000, 0x10000, 2, 4096, 512⟩, [⟨0x10000, 0x10000, 2, 4096, 512⟩]) ∧
+    dbgGuardOff 4096 4096 = 4096 ∧
+    dbgAllocate 8 4096 100 (fun _ => some 0x20000) [] =
+      .ok (⟨0x20000, 0x20000 + 4096 - 800, 2, 800, 100⟩, [⟨0x20000, 0x20000 + 4096 - 800, 2, 800, 100⟩]) :=
+  ⟨rfl, rfl, rfl⟩
+
+/-- the block is aligned for `T` (when `alignof(T)` divides `sizeof(T)` and the page size, and `mmap` returns
+    page-aligned addresses) -/
+theorem debug_ptr_aligned (sz page n al : Nat) (hsz : 0 < sz) (hp : 0 < page) (hp2 : 2 * page ≤ sizeMax)
+    (mmap : Nat → Option Nat) (l l' : List AInfo) (ai : AInfo)
+    (h : dbgAllocate sz page n mmap l = .ok (ai, l')) (h1 : al ∣ sz) (h2 : al ∣ page) (h3 : page ∣ ai.pagePtr) :
+    al ∣ ai.ptr :=
+  dbg_ptr_aligned' hsz hp hp2 h h1 h2 (Nat.dvd_trans h2 h3)
+
+/-- `deallocate(ptr)` finds the block: when every recorded block's lookup key is its own `page_ptr` and the mappings
+    are distinct (`DInv`, established by `debug_history_never_aborts`), deallocating the pointer of any recorded block
+    removes exactly that block -/
+theorem debug_dealloc_finds_block (page : Nat) (l : List AInfo) (hi : DInv page l) (it : AInfo) (hit : it ∈ l) :
+    dbgDeallocate page l it.ptr = some (l.erase it) := dbgDeallocate_finds hi it hit
+
+/-- for every history in which `mmap` returns page-aligned addresses of mappings not in use and only pointers of live
+    blocks are given back, the manager never reaches `allocation_error` and `DInv` holds afterwards -/
+theorem debug_history_never_aborts (sz page : Nat) (hsz : 0 < sz) (hp : 0 < page) (hp2 : 2 * page ≤ sizeMax)
+    (ops : List DOp) (hv : DValid sz page [] ops) :
+    ∃ l, dbgRun sz page [] ops = some l ∧ DInv page l :=
+  dbgRun_ok hsz hp hp2 ops [] ⟨by simp, by simp⟩ hv
+
+-- allocate one page, then 100 bytes, give the first (page-multiple) block back, then the second
+example : dbgRun 1 4096 [] [.alloc 4096 (some 0x10000), .alloc 100 (some 0x30000), .free 0x10000,
+    .free (0x30000 + 4096 - 100)] = some [] := by decide
+
+/-! ## debugalign.hh -/
+
+/-- `isAligned(p, align)` is divisibility -/
+theorem isAligned_iff (p a : Nat) : isAligned p a = true ↔ a ∣ p := isAligned_iff' p a
+
+example : isAligned 96 32 = true ∧ isAligned 104 32 = false := by decide
+
 end DV.C15
